@@ -443,3 +443,65 @@ fn c05_short_or_non_dictionary_datagrams_are_rejected_without_a_panic() {
     kani::cover!(len == 15 && buf[0] == b'd');
     core::mem::forget(r);
 }
+
+// =============================================================================================
+// The round trip in two halves (each half executes ONE of the two giant conversion functions; the
+// composition decode(encode(m)) ~ m follows because the encode half pins down the mirror value that
+// the decode half starts from). Measured: both functions in one harness did not finish in 30 min.
+// =============================================================================================
+
+/// encode half, announce_signed_peer: into_serde_message puts every field into the mirror unchanged;
+/// the u64 timestamp is reinterpreted as i64 bit for bit (so the decoder's `as u64` restores it)
+#[kani::proof]
+#[kani::unwind(70)]
+fn c10_encode_announce_signed_peer_is_field_for_field() {
+    let t: u64 = kani::any();
+    let k0: u8 = kani::any();
+    let mut k = [0x11u8; 32];
+    k[0] = k0;
+    let mut sig = [0x22u8; 64];
+    sig[63] = k0;
+    let tid: u32 = kani::any();
+    let ro: bool = kani::any();
+    let m = Message { transaction_id: tid, version: kani::any(), requester_ip: None, read_only: ro,
+        message_type: MessageType::Request(RequestSpecific { requester_id: idb(0x33), request_type: RequestTypeSpecific::Put(PutRequest { token: Box::new([k0, 9]),
+            put_request_type: PutRequestSpecific::AnnounceSignedPeer(AnnounceSignedPeerRequestArguments { info_hash: idb(0x44), t, k, sig }) }) }) };
+    let d = m.into_serde_message();
+    assert!(d.transaction_id.len() == 4 && d.transaction_id[..] == tid.to_be_bytes(), "C10: 4-byte big-endian transaction id");
+    assert!(d.read_only == Some(if ro { 1 } else { 0 }) && d.ip.is_none());
+    match &d.variant {
+        internal::DHTMessageVariant::Request(internal::DHTRequestSpecific::AnnounceSignedPeer { arguments: a }) => {
+            assert!(a.t as u64 == t, "C10: the timestamp survives the i64 wire representation for every u64 value");
+            assert!(a.k == k && a.sig == sig && a.id == *idb(0x33).as_bytes() && a.info_hash == *idb(0x44).as_bytes() && a.token.len() == 2 && a.token[0] == k0);
+        }
+        _ => assert!(false, "C10: an announce_signed_peer request is encoded as one"),
+    }
+    kani::cover!(t > i64::MAX as u64);
+    core::mem::forget(d);
+}
+
+/// decode half, announce_signed_peer
+#[kani::proof]
+#[kani::unwind(70)]
+fn c10_decode_announce_signed_peer_is_field_for_field() {
+    let t: i64 = kani::any();
+    let k0: u8 = kani::any();
+    let mut k = [0x11u8; 32];
+    k[0] = k0;
+    let mut sig = [0x22u8; 64];
+    sig[63] = k0;
+    let d = internal::DHTMessage { transaction_id: vec![1, 2, 3, 4], version: None, ip: None, read_only: kani::any(),
+        variant: internal::DHTMessageVariant::Request(internal::DHTRequestSpecific::AnnounceSignedPeer { arguments: internal::DHTAnnounceSignedPeerRequestArguments {
+            id: *idb(0x33).as_bytes(), info_hash: *idb(0x44).as_bytes(), token: Box::new([k0, 9]), k, sig, t } }) };
+    match Message::from_serde_message(d) {
+        Ok(m) => match &m.message_type {
+            MessageType::Request(RequestSpecific { requester_id, request_type: RequestTypeSpecific::Put(PutRequest { token, put_request_type: PutRequestSpecific::AnnounceSignedPeer(a) }) }) => {
+                assert!(*requester_id == idb(0x33) && a.info_hash == idb(0x44) && a.t == t as u64 && a.k == k && a.sig == sig && token.len() == 2 && token[0] == k0,
+                    "C10: decoding restores every field of an announce_signed_peer");
+                assert!(m.transaction_id == 0x01020304);
+            }
+            _ => assert!(false, "C10: decoded as another kind"),
+        },
+        Err(_) => assert!(false, "C10: a well-formed announce_signed_peer must decode"),
+    }
+}
